@@ -16,3 +16,4 @@ INVARIANT MutualExclusion
 INVARIANT NoDeadlock
 INVARIANT Inv
 INVARIANT OnceInv
+INVARIANT EvalInv
